@@ -35,7 +35,7 @@ type DepBatch struct {
 	Restart bool      `json:"restart"`
 	// Reimport: after this batch's block the chain is restarted from its exported state
 	Reimport bool `json:"reimport,omitempty"`
-	SameBlk bool      `json:"same_block"` // deliver in the same consensus block as the previous batch
+	SameBlk  bool `json:"same_block"` // deliver in the same consensus block as the previous batch
 }
 
 var depthChoices = []int{0, 1, 2, 3, 50, 97, 98, 99, 100, 101, 102, 120, 129}
